@@ -57,6 +57,14 @@ type vStaking struct {
 	ubds      [][]stakingtypes.UnbondingDelegation
 	reds      [][]stakingtypes.Redelegation
 	failAt    map[string]bool
+	hist      bool
+}
+
+func (s *vStaking) GetHistoricalInfo(ctx context.Context, height int64) (stakingtypes.HistoricalInfo, error) {
+	if !s.hist {
+		return stakingtypes.HistoricalInfo{}, stakingtypes.ErrNoHistoricalInfo
+	}
+	return stakingtypes.HistoricalInfo{}, nil
 }
 
 // newVStaking builds a universe of n validators whose status, jailed flag,
@@ -256,6 +264,18 @@ func newVSlashing(st *vStaking, prefix string) *vSlashing {
 		s.jailUntil = append(s.jailUntil, time.Time{})
 	}
 	return s
+}
+
+func (s *vSlashing) DowntimeJailDuration(ctx context.Context) (time.Duration, error) {
+	return 600 * time.Second, nil
+}
+
+func (s *vSlashing) SlashFractionDowntime(ctx context.Context) (math.LegacyDec, error) {
+	return math.LegacyNewDecWithPrec(1, 4), nil
+}
+
+func (s *vSlashing) SlashFractionDoubleSign(ctx context.Context) (math.LegacyDec, error) {
+	return math.LegacyNewDecWithPrec(5, 2), nil
 }
 
 func (s *vSlashing) IsTombstoned(ctx context.Context, cons sdk.ConsAddress) bool {
